@@ -76,6 +76,46 @@ Theorem C09_encode_parse_round_trip : forall o cap seq fc hs bytes,
 Proof. exact encode_parse_round_trip. Qed.
 Print Assumptions C09_encode_parse_round_trip.
 
+(* P1 (free-format file objects g70v2 .. g70v8, app/file/g70v*.rs): `write` fails, with Overflow, exactly
+   when a string size (or, for g70v2, the password offset 12 + size of the user name) exceeds 65535;
+   otherwise it produces fw_body *)
+Theorem C09_free_write_result : forall o,
+  (afree_sizes_fit o /\ awrite_free o = AOk (fw_body o))
+  \/ (~ afree_sizes_fit o /\ awrite_free o = AErr WENumeric).
+Proof. exact free_write_result. Qed.
+Print Assumptions C09_free_write_result.
+
+(* P1: the body is the fixed-size fields in their little-endian widths (afree_values: the constant offsets
+   12 / 26 / 20, the size fields = alen = the number of BYTES of the UTF-8 strings, the implied password
+   offset) followed by the strings / the file data *)
+Theorem C09_free_body_layout : forall o,
+  fw_body o = awrite_fields (afree_widths o) (afree_values o) ++ afree_tail o.
+Proof. exact free_body_layout. Qed.
+Print Assumptions C09_free_body_layout.
+
+(* P1: reading the fields back yields the values written (the size fields decode to the byte lengths of the
+   strings) and leaves exactly the strings *)
+Theorem C09_free_size_fields_are_byte_lengths : forall o rest, afree_fields_ok o ->
+  aread_fields (afree_widths o) (fw_body o ++ rest) = Some (afree_values o, afree_tail o ++ rest).
+Proof. exact free_fields_round_trip. Qed.
+Print Assumptions C09_free_size_fields_are_byte_lengths.
+
+(* P1: what `write` produces for an object whose strings are UTF-8 (any &str) is accepted by the reader,
+   which reports the byte lengths of the strings / data and leaves no byte unread (aparse_free returns
+   the lengths the harness lists and the unread rest) *)
+Theorem C09_free_parse_round_trip : forall o body, afree_strings_ok o -> awrite_free o = AOk body ->
+  aparse_free (afree_var o) body = AOk (afree_lengths o, []).
+Proof. exact free_parse_round_trip. Qed.
+Print Assumptions C09_free_parse_round_trip.
+
+(* P1: HeaderWriter::write_free_format: group 70, variation, qualifier 0x5B, count 1, 16-bit length of the
+   object, the object.  (Inside a request the header is covered by C09_encode_parse_round_trip: aw_ok and
+   aw_headers of WFree.) *)
+Theorem C09_free_header_layout : forall o,
+  aw_free_bytes o = [70; afree_var o; 91; 1] ++ ale_bytes 2 (alen (fw_body o)) ++ fw_body o.
+Proof. exact free_header_layout. Qed.
+Print Assumptions C09_free_header_layout.
+
 (* P1: function, flags (FIR/FIN/CON/UNS, sequence) and IIN: the header a writer emits is parsed back, the
    object headers being everything that follows ... *)
 Theorem C09_header_round_trip : forall h objs, ac_seq (ah_control h) < 16 -> afunction_known (ah_function h) = true ->
@@ -147,4 +187,60 @@ Proof.
   eexists. split; [vm_compute; reflexivity|].
   constructor; [|constructor; [|constructor]];
     (split; [vm_compute; reflexivity|split; [repeat constructor; lia|vm_compute; reflexivity]]).
+Qed.
+
+(* free-format objects: the file name "données.csv" is 11 characters and 12 bytes (é = 195 169); the size
+   field of g70v7 carries 12, the object is accepted by the reader with that length, and the request that
+   carries it is parsed back into the free-format header *)
+Definition ex_name : list N := [100; 111; 110; 110; 195; 169; 101; 115; 46; 99; 115; 118].
+Definition ex_g70v7 : afree :=
+  F70v7 {| f7_file_type := 1; f7_file_size := 1000; f7_time := 1700000000000; f7_permissions := 292;
+           f7_request_id := 7; f7_file_name := ex_name |}.
+
+Example ex_free_non_ascii :
+  length ex_name = 12%nat
+  /\ afree_strings_ok ex_g70v7 /\ afree_fields_ok ex_g70v7
+  /\ awrite_free ex_g70v7
+     = AOk ([20; 0; 12; 0; 1; 0; 232; 3; 0; 0; 0; 104; 229; 207; 139; 1; 36; 1; 7; 0] ++ ex_name)
+  /\ aparse_free 7 ([20; 0; 12; 0; 1; 0; 232; 3; 0; 0; 0; 104; 229; 207; 139; 1; 36; 1; 7; 0] ++ ex_name) = AOk ([12], []).
+Proof.
+  split; [reflexivity|]. split; [vm_compute; reflexivity|]. split; [|split; vm_compute; reflexivity].
+  unfold afree_fields_ok. vm_compute afree_widths. vm_compute afree_values. repeat constructor; vm_compute; reflexivity.
+Qed.
+
+(* a user name of three 3-byte characters and a 4-byte character as password: sizes 9 and 4, offsets 12 and 21 *)
+Example ex_free_g70v2 :
+  awrite_free (F70v2 {| f2_auth_key := 0; f2_user_name := [230; 151; 165; 230; 156; 172; 232; 170; 158];
+                        f2_password := [240; 159; 152; 128] |})
+  = AOk [12; 0; 9; 0; 21; 0; 4; 0; 0; 0; 0; 0; 230; 151; 165; 230; 156; 172; 232; 170; 158; 240; 159; 152; 128].
+Proof. vm_compute. reflexivity. Qed.
+
+(* a string of 65536 bytes cannot be written; one of 65535 can (g70v3), 65523 is the limit for the user name
+   of g70v2 because the password offset 12 + size must fit as well *)
+Definition ex_g70v3 (n : N) : afree :=
+  F70v3 {| f3_time := 0; f3_permissions := 0; f3_auth_key := 0; f3_file_size := 0; f3_mode := 1;
+           f3_max_block_size := 0; f3_request_id := 0; f3_file_name := repeat 97 (N.to_nat n) |}.
+Definition ex_g70v2 (n : N) : afree :=
+  F70v2 {| f2_auth_key := 0; f2_user_name := repeat 97 (N.to_nat n); f2_password := [] |}.
+
+Example ex_free_overflow :
+  awrite_free (ex_g70v3 65536) = AErr WENumeric /\ afree_sizes_fit (ex_g70v3 65535)
+  /\ awrite_free (ex_g70v2 65524) = AErr WENumeric /\ afree_sizes_fit (ex_g70v2 65523).
+Proof.
+  assert (L : forall n, alen (repeat 97 (N.to_nat n)) = n) by (intro n; unfold alen; rewrite repeat_length; apply N2Nat.id).
+  split; [|split; [|split]].
+  - destruct (free_write_result (ex_g70v3 65536)) as [[H _]|[_ E]]; [|exact E].
+    cbn [ex_g70v3 afree_sizes_fit f3_file_name] in H. rewrite L in H. lia.
+  - cbn [ex_g70v3 afree_sizes_fit f3_file_name]. rewrite L. lia.
+  - destruct (free_write_result (ex_g70v2 65524)) as [[[H _] _]|[_ E]]; [|exact E].
+    cbn [ex_g70v2 f2_user_name] in H. rewrite L in H. unfold g70v2_user_name_offset in H. lia.
+  - cbn [ex_g70v2 afree_sizes_fit f2_user_name f2_password]. rewrite L. unfold g70v2_user_name_offset, alen. cbn [length N.of_nat]. lia.
+Qed.
+
+(* the request that opens that file is written and satisfies the side conditions of the round trip *)
+Example ex_free_request : exists bytes,
+  awrite_request 2048 3 25 [WFree ex_g70v7] = AOk bytes /\ aw_ok ex_opts 25 (WFree ex_g70v7).
+Proof.
+  eexists. split; [vm_compute; reflexivity|]. cbn [aw_ok]. split; [vm_compute; reflexivity|].
+  split; vm_compute; discriminate.
 Qed.
